@@ -58,8 +58,7 @@ OpsTtl ==       \* short TTL + tick (sleep): kept small, every tick costs wall t
 OpsValid ==     \* validation hooks, corruption of disk files
   {[op |-> "put_val", k |-> K1, v |-> v, ck |-> c] : v \in Vals, c \in Vals}
   \cup {[op |-> "get_val", k |-> K1, ck |-> c] : c \in Vals \cup {None}}
-  \cup {PutL(K1, v, i) : v \in Vals, i \in {0, Low}} \cup {[op |-> "corrupt", k |-> K1]}
-  \cup {Get(K1), Put(K1, "v1")}
+  \cup {PutL(K1, v, Low) : v \in Vals} \cup {PutL(K1, "v1", 0), [op |-> "corrupt", k |-> K1], Get(K1)}
 
 OpsFault ==     \* deletion / corruption of the disk layer's files under every reader
   {[op |-> f, k |-> k] : f \in {"corrupt", "delete"}, k \in Keys}
